@@ -344,12 +344,15 @@ bool qtreetbl_putobj(qtreetbl_t *tbl, const void *name, size_t namesize,
     errno = 0;
     qtreetbl_obj_t *root = put_obj(tbl, tbl->root, name, namesize, data,
                                    datasize);
+    if (root != NULL) {
+        // keep the (possibly restructured) tree even if the insertion failed
+        root->red = false;
+        tbl->root = root;
+    }
     if (root == NULL || errno == ENOMEM) {
         qtreetbl_unlock(tbl);
         return false;
     }
-    root->red = false;
-    tbl->root = root;
     qtreetbl_unlock(tbl);
 
     return true;
@@ -1166,7 +1169,8 @@ static qtreetbl_obj_t *new_obj(bool red, const void *name, size_t namesize,
     void *copyname = qmemdup(name, namesize);
     void *copydata = qmemdup(data, datasize);
 
-    if (obj == NULL || copyname == NULL) {
+    if (obj == NULL || copyname == NULL
+        || (copydata == NULL && data != NULL && datasize > 0)) {
         errno = ENOMEM;
         free(obj);
         free(copyname);
@@ -1187,8 +1191,11 @@ static qtreetbl_obj_t *put_obj(qtreetbl_t *tbl, qtreetbl_obj_t *obj,
                                const void *name, size_t namesize,
                                const void *data, size_t datasize) {
     if (obj == NULL) {
-        tbl->num++;
-        return new_obj(true, name, namesize, data, datasize);
+        qtreetbl_obj_t *newobj = new_obj(true, name, namesize, data, datasize);
+        if (newobj != NULL) {
+            tbl->num++;
+        }
+        return newobj;
     }
 
 #ifdef LLRB234
@@ -1201,10 +1208,12 @@ static qtreetbl_obj_t *put_obj(qtreetbl_t *tbl, qtreetbl_obj_t *obj,
     int cmp = tbl->compare(name, namesize, obj->name, obj->namesize);
     if (cmp == 0) {  // existing key found
         void *copydata = qmemdup(data, datasize);
-        if (copydata != NULL) {
+        if (copydata != NULL || data == NULL || datasize == 0) {
             free(obj->data);
             obj->data = copydata;
             obj->datasize = datasize;
+        } else {
+            errno = ENOMEM;
         }
     } else if (cmp < 0) {
         obj->left = put_obj(tbl, obj->left, name, namesize, data, datasize);
